@@ -1,0 +1,172 @@
+//! Verification hooks. Compiled only with `--cfg sneldb_verif`; with the flag off this
+//! module does not exist and no call site is compiled.
+//!
+//! * scripted clocks for the event-id generator and the STORE handler,
+//! * named step points that can crash the process on their k-th hit or park the calling
+//!   thread until released.
+
+use std::collections::{HashMap, VecDeque};
+use std::sync::{Condvar, Mutex, OnceLock};
+
+struct ClockScript {
+    readings: VecDeque<u64>,
+    last: u64,
+    active: bool,
+}
+
+fn id_clock() -> &'static Mutex<ClockScript> {
+    static C: OnceLock<Mutex<ClockScript>> = OnceLock::new();
+    C.get_or_init(|| {
+        Mutex::new(ClockScript {
+            readings: VecDeque::new(),
+            last: 0,
+            active: false,
+        })
+    })
+}
+
+/// Installs a script of millisecond readings for the id generator. When the script is
+/// exhausted every further reading is `last + 1` (so `wait_next_millis` terminates).
+pub fn set_id_clock(readings: Vec<u64>) {
+    let mut c = id_clock().lock().unwrap();
+    c.readings = readings.into();
+    c.last = 0;
+    c.active = true;
+}
+
+pub fn clear_id_clock() {
+    let mut c = id_clock().lock().unwrap();
+    c.readings.clear();
+    c.active = false;
+}
+
+/// Next scripted reading, `None` when no script is installed.
+pub fn id_clock_millis() -> Option<u64> {
+    let mut c = id_clock().lock().unwrap();
+    if !c.active {
+        return None;
+    }
+    let v = match c.readings.pop_front() {
+        Some(v) => v,
+        None => c.last.saturating_add(1),
+    };
+    c.last = v;
+    Some(v)
+}
+
+fn store_clock() -> &'static Mutex<Option<u64>> {
+    static C: OnceLock<Mutex<Option<u64>>> = OnceLock::new();
+    C.get_or_init(|| Mutex::new(None))
+}
+
+/// Fixes the wall-clock second the STORE handler stamps on events (`None` = real clock).
+pub fn set_store_now_secs(v: Option<u64>) {
+    *store_clock().lock().unwrap() = v;
+}
+
+pub fn store_now_secs() -> Option<u64> {
+    *store_clock().lock().unwrap()
+}
+
+#[derive(Default)]
+struct Points {
+    hits: HashMap<String, u64>,
+    crash_at: HashMap<String, u64>,
+    park: HashMap<String, bool>,   // name -> armed
+    parked: HashMap<String, u64>,  // name -> number of threads currently parked
+    trace: Option<Vec<String>>,
+}
+
+fn points() -> &'static (Mutex<Points>, Condvar) {
+    static P: OnceLock<(Mutex<Points>, Condvar)> = OnceLock::new();
+    P.get_or_init(|| {
+        let mut p = Points::default();
+        // SNELDB_VERIF_CRASH="name:k[,name:k]" arms crash points from the environment.
+        if let Ok(spec) = std::env::var("SNELDB_VERIF_CRASH") {
+            for item in spec.split(',') {
+                if let Some((n, k)) = item.rsplit_once(':') {
+                    if let Ok(k) = k.parse::<u64>() {
+                        p.crash_at.insert(n.to_string(), k);
+                    }
+                }
+            }
+        }
+        if std::env::var("SNELDB_VERIF_TRACE").is_ok() {
+            p.trace = Some(Vec::new());
+        }
+        (Mutex::new(p), Condvar::new())
+    })
+}
+
+/// Abort the process when `name` is hit for the `k`-th time (1-based).
+pub fn arm_crash(name: &str, k: u64) {
+    points().0.lock().unwrap().crash_at.insert(name.to_string(), k);
+}
+
+/// Make every thread that reaches `name` block until `release(name)`.
+pub fn arm_park(name: &str) {
+    points().0.lock().unwrap().park.insert(name.to_string(), true);
+}
+
+/// Disarm `name` and wake every thread parked there.
+pub fn release(name: &str) {
+    let (m, cv) = points();
+    m.lock().unwrap().park.remove(name);
+    cv.notify_all();
+}
+
+pub fn release_all() {
+    let (m, cv) = points();
+    m.lock().unwrap().park.clear();
+    cv.notify_all();
+}
+
+/// Number of threads currently parked at `name`.
+pub fn parked(name: &str) -> u64 {
+    *points().0.lock().unwrap().parked.get(name).unwrap_or(&0)
+}
+
+pub fn hits(name: &str) -> u64 {
+    *points().0.lock().unwrap().hits.get(name).unwrap_or(&0)
+}
+
+pub fn start_trace() {
+    points().0.lock().unwrap().trace = Some(Vec::new());
+}
+
+pub fn take_trace() -> Vec<String> {
+    points()
+        .0
+        .lock()
+        .unwrap()
+        .trace
+        .as_mut()
+        .map(std::mem::take)
+        .unwrap_or_default()
+}
+
+/// A named step boundary.
+pub fn point(name: &str) {
+    let (m, cv) = points();
+    let mut p = m.lock().unwrap();
+    let n = {
+        let e = p.hits.entry(name.to_string()).or_insert(0);
+        *e += 1;
+        *e
+    };
+    if let Some(t) = p.trace.as_mut() {
+        t.push(name.to_string());
+    }
+    if p.crash_at.get(name) == Some(&n) {
+        // Process-kill semantics: no destructors, no buffered-writer flush.
+        eprintln!("sneldb_verif: crash at {name}#{n}");
+        std::process::abort();
+    }
+    if p.park.get(name).copied().unwrap_or(false) {
+        *p.parked.entry(name.to_string()).or_insert(0) += 1;
+        while p.park.get(name).copied().unwrap_or(false) {
+            p = cv.wait(p).unwrap();
+        }
+        *p.parked.entry(name.to_string()).or_insert(1) -= 1;
+    }
+}
